@@ -192,6 +192,9 @@ func (prop) Run(line string) core.Outcome {
 	if o, ok := runVia(f); ok {
 		return o
 	}
+	if o, ok := runProv(line, f); ok {
+		return o
+	}
 	if f[0] == "cfsite" && len(f) == 8 {
 		return runSite(line, f)
 	}
